@@ -134,7 +134,7 @@ func (s *gmShape) show() string {
 	return fmt.Sprintf("&GM{P:%s L:[%s] M:%s N:%s}", s.P.show(), strings.Join(ls, " "), m, s.N.show())
 }
 
-func runGMap(c *gmapCase, rep *Report, idx int) string {
+func runGMap(c *gmapCase, rep *Report, idx int) (string, string) {
 	var st *gomini.State
 	if c.named {
 		st = gomini.NewState(namedCreator)
@@ -202,14 +202,108 @@ func runGMap(c *gmapCase, rep *Report, idx int) string {
 	defer cancel()
 	answers := gomini.RunTake(ctx, -1, st, func(q *GM) gomini.Goal { return body(0, q) })
 	obs := fmt.Sprintf("%d answer(s)", len(answers))
+	// the same run for the transcribed algorithm (coq/GCore.v): query = variable 0, string variable i = variable i+1
+	strG := func(s string) string { return "(GPtr (GScalar 1%N (" + strings.TrimSuffix(strNum(s), "%N") + ")%Z))" }
+	var shapeG func(s *gmShape) string
+	leafG := func(l *gmLeaf) string {
+		switch {
+		case l.nil:
+			return "GNilPtr"
+		case l.v >= 0:
+			return "(gvar " + coqN(uint64(l.v+1)) + ")"
+		}
+		return strG(l.c)
+	}
+	shapeG = func(s *gmShape) string {
+		if s == nil {
+			return "GNilPtr"
+		}
+		ls := []string{}
+		for _, l := range s.L {
+			ls = append(ls, leafG(l))
+		}
+		lG := "(GSlice true [])"
+		if len(ls) > 0 {
+			lG = "(GSlice false " + coqList(ls) + ")"
+		}
+		mG := "(GMap true [])"
+		if s.M != nil {
+			keys := []string{}
+			for k := range s.M {
+				keys = append(keys, k)
+			}
+			sort.Strings(keys)
+			es := []string{}
+			for _, k := range keys {
+				es = append(es, "("+strNum(k)+", "+leafG(s.M[k])+")")
+			}
+			mG = "(GMap false " + coqList(es) + ")"
+		}
+		return "(GStructPtr [" + leafG(s.P) + "; " + lG + "; " + mG + "; " + shapeG(s.N) + "])"
+	}
+	eqs := []string{"((gvar 0%N), " + shapeG(c.shape) + ")"}
+	for i, b := range c.bind {
+		switch {
+		case b == -2:
+			eqs = append(eqs, "((gvar "+coqN(uint64(i+1))+"), "+strG(c.consts[i])+")")
+		case b >= 0:
+			eqs = append(eqs, "((gvar "+coqN(uint64(i+1))+"), (gvar "+coqN(uint64(b+1))+"))")
+		}
+	}
+	var ansG func(g *GM) string
+	ptrG := func(p *string) string {
+		if p == nil {
+			return "GNilPtr"
+		}
+		if j, isPh := isPlaceholder[reflect.ValueOf(p).Pointer()]; isPh {
+			return "(gvar " + coqN(uint64(j+1)) + ")"
+		}
+		return strG(*p)
+	}
+	ansG = func(g *GM) string {
+		if g == nil {
+			return "GNilPtr"
+		}
+		lG := "(GSlice true [])"
+		if g.L != nil {
+			ls := []string{}
+			for _, p := range g.L {
+				ls = append(ls, ptrG(p))
+			}
+			lG = "(GSlice false " + coqList(ls) + ")"
+		}
+		mG := "(GMap true [])"
+		if g.M != nil {
+			keys := []string{}
+			for k := range g.M {
+				keys = append(keys, k)
+			}
+			sort.Strings(keys)
+			es := []string{}
+			for _, k := range keys {
+				es = append(es, "("+strNum(k)+", "+ptrG(g.M[k])+")")
+			}
+			mG = "(GMap false " + coqList(es) + ")"
+		}
+		return "(GStructPtr [" + ptrG(g.P) + "; " + lG + "; " + mG + "; " + ansG(g.N) + "])"
+	}
+	ansL := []string{}
+	for _, a := range answers {
+		if g, isG := a.(*GM); isG {
+			ansL = append(ansL, ansG(g))
+		} else {
+			ansL = append(ansL, "GNil")
+		}
+	}
+	coqCase := fmt.Sprintf("CGRun (gvar 0%%N) %s %s", coqList(eqs), coqList(ansL))
 	if len(answers) != 1 {
 		rep.violate(idx, "gomini-run-answer-count", c.desc, fmt.Sprintf("%d answers, expected 1", len(answers)))
-		return obs
+		return obs, coqCase
 	}
 	ans, ok := answers[0].(*GM)
 	if !ok {
 		rep.violate(idx, "gomini-run-wrong-type", c.desc, fmt.Sprintf("the answer has dynamic type %T, not the query's type *GM", answers[0]))
-		return obs
+		return obs, coqCase
 	}
 	// what a leaf must resolve to: follow the chain of bindings
 	resolve := func(v int) (int, string, bool) { // (unbound variable, "", false) or (-1, constant, true)
@@ -305,5 +399,5 @@ func runGMap(c *gmapCase, rep *Report, idx int) string {
 		same(where+".N", s.N, g.N)
 	}
 	same("caller's term", c.shape, built)
-	return obs + " *GM"
+	return obs + " *GM", coqCase
 }
